@@ -4944,7 +4944,10 @@ func (c *Checker) assignIvarIndicesForNamespace(namespace types.NamespaceWithIva
 				currentIvarIndices[ivar.Name] = len(currentIvarIndices)
 			}
 
-			parent.SetIvarIndices(&currentIvarIndices)
+			// store a pointer to a map of its own: currentIvarIndices is reassigned
+			// below and keeps growing for the descendants
+			parentIvarIndices := currentIvarIndices
+			parent.SetIvarIndices(&parentIvarIndices)
 			if c.shouldCompile() && !parent.IsNative() && len(currentIvarIndices) != 0 {
 				c.compiler.CompileIvarIndices(parent, position.DefaultLocation)
 			}
